@@ -108,14 +108,18 @@ def _holder(thetas):
     return h
 
 
-def _dm(D):
+def _dm(D, order=None):
+    """A complete ChunkedDistanceMatrix; `order` permutes the sequence in which the pairs are stored
+    (chunk files may be combined in any arrival order, so storage order is not canonical)."""
     from batchie.distance_calculation import ChunkedDistanceMatrix
 
     n = D.shape[0]
     m = ChunkedDistanceMatrix(size=n)
-    for i in range(n):
-        for j in range(i):
-            m.add_value(i, j, float(D[i, j]))
+    pairs = [(i, j) for i in range(n) for j in range(i)]
+    if order is not None:
+        pairs = [pairs[k] for k in order]
+    for i, j in pairs:
+        m.add_value(i, j, float(D[i, j]))
     return m
 
 
@@ -228,12 +232,12 @@ def _run(plan, log, stats, violation):
                 return False
         return True
 
-    def scorer_scores(scr, ths, Dm, plate_ids, max_chunk, seed, dict_order=None):
+    def scorer_scores(scr, ths, Dm, plate_ids, max_chunk, seed, dict_order=None, dm_order=None):
         sc = G.GaussianDBALScorer(max_chunk=max_chunk, max_triples=5000)
         plates = {pid: scr.get_plate(pid) for pid in plate_ids}
         if dict_order is not None:
             plates = {pid: plates[pid] for pid in dict_order}
-        out = sc.score(plates=plates, distance_matrix=_dm(Dm), samples=_holder(ths), rng=np.random.default_rng(seed), progress_bar=False)
+        out = sc.score(plates=plates, distance_matrix=_dm(Dm, dm_order), samples=_holder(ths), rng=np.random.default_rng(seed), progress_bar=False)
         return {name_of(scr, int(k)): float(v) for k, v in out.items()}
 
     srnd = sub_rng(plan["sched_seed"], "sched")
@@ -272,6 +276,12 @@ def _run(plan, log, stats, violation):
         out_shared = shared.score(plates={pid: screen.get_plate(pid) for pid in pids}, distance_matrix=_dm(D), samples=_holder(thetas),
                                   rng=np.random.default_rng(10), progress_bar=False)
         if not record("scorer-reuse", {name_of(screen, int(k)): float(v) for k, v in out_shared.items()}):
+            return
+        # (iii'') the distance chunks arrived in another order: the same pairs are stored in another sequence
+        n_pairs = n * (n - 1) // 2
+        dm_order = list(range(n_pairs))
+        srnd.shuffle(dm_order)
+        if not record("distance-arrival-order", scorer_scores(screen, thetas, D, pids, 50, 11, dm_order=dm_order)):
             return
         # (iv) permuted plate dict
         po = list(pids)
